@@ -484,7 +484,7 @@ mod v_iface_frag_tx {
         (m & 1 != 0) as usize + ((m & 2 != 0) && (m & 1 == 0)) as usize + ((m & 4 != 0) && (m & 2 == 0)) as usize
     }
 
-    // @harness props=C12 cfg=KI4 tier=q to=900 mem=8 unwind=12 opts=nomem covers=3 funcs=InterfaceInner::process_ip;InterfaceInner::process_ipv4;PacketAssemblerSet::get;PacketAssembler::set_total_size;PacketAssembler::add;PacketAssembler::assemble;raw::Socket::process bounds=datagram_of_24_payload_bytes_in_3_fragments_of_8;_4_symbolic_picks_(every_order_and_duplication);_symbolic_ident_and_bytes;_raw_socket_as_receiver;_no_expiry
+    // @harness props=C12 cfg=KI4r tier=q to=900 mem=8 unwind=12 opts=nomem covers=3 funcs=InterfaceInner::process_ip;InterfaceInner::process_ipv4;PacketAssemblerSet::get;PacketAssembler::set_total_size;PacketAssembler::add;PacketAssembler::assemble;raw::Socket::process bounds=64-byte_reassembly_buffers_(KI4r);_datagram_of_24_payload_bytes_in_3_fragments_of_8;_4_symbolic_picks_(every_order_and_duplication);_symbolic_ident_and_bytes;_raw_socket_as_receiver;_no_expiry
     #[kani::proof]
     pub(crate) fn ipv4_reasm_process() {
         ip_iface!(dev, iface, 1500, ChecksumCapabilities::ignored());
